@@ -2,7 +2,7 @@
 import json, os
 from .common import VERIF
 from .mirtab import Engine, Undecided, check_partition, ev, term_str
-from .extract import (extract_all_layouts, show_out, mods_str, RAW_BASE, PANIC, leaf_where, span_line)
+from .extract import (extract_all_layouts, extract_layout, inherent_layout_shadows, show_out, mods_str, RAW_BASE, PANIC, leaf_where, span_line)
 from .rules_event import load_keys
 
 REFDIR = os.path.join(VERIF, 'reference', 'layouts')
@@ -31,6 +31,28 @@ def tables(ctx, rep):
     rep.floor('concrete KeyboardLayout impls', len(tabs), 10)
     rep.analysed['layouts'] = {n: {'fn': t.fn_path, 'path_classes': t.n_classes, 'cells': len(t.out), 'engine': t.engine_stats}
                                for n, t in tabs.items()}
+    # an inherent `map_keycode` shadows the trait method for direct calls on the value: it must give the same table
+    for name, ty, inh, trait_fn in inherent_layout_shadows(ctx):
+        try:
+            a = ctx.prog.adts.get(ty.get('path', ''))
+            variants = [v['idx'] for v in a['variants']] if a is not None and a['kind'] == 'enum' else [None]
+            bad = None
+            for vi in variants:       # an enum wrapper is compared variant by variant
+                doms = None if vi is None else {'self.tag': [vi]}
+                ti = extract_layout(ctx, name, inh, arg_doms=doms)
+                tt = extract_layout(ctx, name, trait_fn, arg_doms=doms)
+                bad = next((i for i in range(len(ti.out)) if ti.out[i] != tt.out[i]), None)
+                if bad is not None:
+                    break
+            rep.ob('inherent map_keycode agrees with the trait method', 1, 0 if bad is not None else 1)
+            if bad is not None:
+                k, m_, h = bad // 1024, (bad % 1024) // 2, bad % 2
+                rep.finding('%s layout=%s inherent-map_keycode-shadows-trait-method' % (rep.prop, name.split('::')[-1]),
+                            'inherent %s is what `layout.map_keycode(..)` calls; for %s mods=%s it gives %s where the KeyboardLayout impl gives %s' % (
+                                inh, ctx.keycodes[k], mods_str(ctx, m_), show_out(ctx, ti.out[bad]), show_out(ctx, tt.out[bad])))
+        except Undecided as u:
+            rep.finding('%s layout=%s inherent-map_keycode undecided' % (rep.prop, name.split('::')[-1]),
+                        'an inherent map_keycode shadows the trait method and could not be analysed: %s' % u)
     for n, t in tabs.items():
         npanic = sum(1 for x in t.out if x == PANIC)
         if npanic:
@@ -65,7 +87,16 @@ def check_characters(ctx, rep, tier):
                 rep.finding('C03 anchor key %s' % kname, 'reference names a key the crate no longer has')
                 continue
             k = ctx.kc[kname]
-            base_out = t.get(k, B.NUM, B.IGN)
+            # does the layout give this key a distinct AltGr-level character at all?  (in any AltGr-selecting state)
+            has_altgr = False
+            for m in range(512):
+                if B.caps(m) or not B.G(m) or B.S(m):
+                    continue
+                for h in (B.MAP, B.IGN):
+                    if B.C(m) and h == B.MAP:
+                        continue
+                    if t.get(k, m, h) != t.get(k, m & ~(B.RA | B.LA), h):
+                        has_altgr = True
             for m in range(512):
                 if B.caps(m):
                     continue
@@ -79,13 +110,15 @@ def check_characters(ctx, rep, tier):
                     got = t.get(k, m, h)
                     ncell += 1
                     if lvl == 'altgr':
-                        # only a *distinct* AltGr-level character is constrained
-                        base_same_state = t.get(k, m & ~(B.RA | B.LA), h)
-                        if got == base_out or got == base_same_state:
+                        if not has_altgr:
                             rep.ob('level cells', 1)
                             continue
+                        # the key has an AltGr level: every state that selects it must give the standard's character
                         acc = cell.get('altgr')
                         if acc is None:
+                            if got == t.get(k, m & ~(B.RA | B.LA), h):
+                                rep.ob('level cells', 1)
+                                continue
                             rep.ob('level cells', 1, 0)
                             rep.finding('C03 layout=%s key=%s level=altgr expected=<no AltGr character> got=%s' % (name, kname, show_out(ctx, got)),
                                         'the reference (%s) has no AltGr character on this key; %s' % (ref['standard'], cell_desc(ctx, t, k, m, h)))
